@@ -380,6 +380,9 @@ class PathRules:
             for cb, s in self.sites("remove_dir_all", lambda s: sname(s.path) == "remove_dir"):
                 gs = self.guards(cb, s.bb)
                 ok = any(g[0] == "variant" and g[3] == "None" and peel(g[1])[0] == "call" and sname(peel(g[1])[1]) == "next" for g in gs)
+                # ... or after `children.try_for_each(|child| ..)?` came back Ok: every child was visited and none failed
+                ok = ok or any(g[0] == "variant" and g[2] == "ok" and peel(g[1])[0] == "call" and sname(peel(g[1])[1]) == "try_for_each" and
+                               any(x[0] == "call" and sname(x[1]) == "read_dir" for x in walk(peel(g[1])[2][0])) for g in gs if peel(g[1])[0] == "call" and peel(g[1])[2])
                 n += 1
                 rep.ob(rule, b.id, "remove_dir_all: remove_dir(self) after the child loop", ok,
                        "dominated by the loop exit" if ok else "self.remove_dir() is not after the child loop", s.line)
